@@ -71,6 +71,15 @@ def run_child(w, mod, plan, chspec, timeout=None):
     os.close(rfd)
     code = 0
     try:
+      try:
+        # a 17-byte garbage pickle (LONG_BINPUT with a 32-bit memo index) makes CPython's
+        # unpickler try to allocate tens of gigabytes: bound the address space so that it
+        # fails fast with MemoryError instead of thrashing until the watchdog kills the run
+        import resource
+        lim = int(os.environ.get('VERIF_RLIMIT_AS', str(6 << 30)))
+        resource.setrlimit(resource.RLIMIT_AS, (lim, lim))
+      except Exception:
+        pass
       if not os.environ.get('VERIF_DEBUG'):
         # CPython prints "deallocated bytearray object has exported buffers" and
         # similar diagnostics for some garbage pickles; harness errors travel in
